@@ -9,7 +9,8 @@ import re
 import gen_logs as G
 
 
-def gen_defs(rng, ncons, nsimple=None, nseq=None, allow_cons=True):
+def gen_defs(rng, ncons, nsimple=None, nseq=None, allow_cons=True,
+             typed=False):
     """ returns list of def recipes (see sk_child.py) """
     defs = []
     nsimple = rng.randint(1, 3) if nsimple is None else nsimple
@@ -21,6 +22,11 @@ def gen_defs(rng, ncons, nsimple=None, nseq=None, allow_cons=True):
         if allow_cons and ncons and rng.random() < 0.35:
             d['constraints'] = sorted(rng.sample(range(ncons),
                                                  rng.randint(1, min(2, ncons))))
+        if typed and pats == [r'^\S+ \S+ (\w+) (\d+)?'] \
+                and rng.random() < 0.7:
+            # a typed field on an optional group that often does not match
+            d['field_types'] = {'word': 'str',
+                                'num': rng.choice(['int', 'float', 'str'])}
         defs.append(d)
     for i in range(nseq):
         st, bo, en = rng.choice(G.SEQ_POOL)
@@ -88,6 +94,23 @@ def sd_run(cd, text):
         if m:
             return m
     return None
+
+
+def cast_parts(d, parts):
+    """ apply the definition's declared field types the way the oracle
+    expects them to read back (canonicalised like sk_child does) """
+    ft = d.get('field_types')
+    if not ft:
+        return [v for _, v in parts]
+    names = list(ft)
+    types = {'int': int, 'str': str, 'float': float, None: None}
+    out = []
+    for idx, v in parts:
+        t = types[ft[names[idx - 1]]] if 1 <= idx <= len(names) else None
+        if v is not None and t is not None:
+            v = t(v)
+        out.append(v if isinstance(v, (int, str, type(None))) else repr(v))
+    return out
 
 
 def parts_of(m, store):
